@@ -31,6 +31,11 @@ Theorem C01_roundtrip_value : forall t ws v b,
   ser_value ws t v = Ok b -> blen b < two64 -> deser_value t b = Ok (pad t v).
 Proof. exact (fun t ws v b => roundtrip_value t ws v b). Qed.
 
+Theorem C01_roundtrip_value_sized : forall t v b,
+  wf_type t = true -> wf_val t v = true -> known_class t v = false ->
+  ser_value true t v = Ok b -> deser_value t b = Ok (pad t v).
+Proof. exact roundtrip_value_sized. Qed.
+
 (* known_class is exactly the disjunction of the two finding classes *)
 Theorem C01_known_class_split : forall t v,
   known_class t v = false <-> vector_hole t v = false /\ empty_tuple_inside t v = false.
@@ -83,6 +88,66 @@ Theorem C01_cell_markers : forall t,
   ser_cell t CNull = Ok (spec_int (-1)) /\ ser_cell t CUnset = Ok (spec_int (-2)) /\
   (supports_empty t = true -> ser_cell t (CVal CEmpty) = Ok (spec_int 0)).
 Proof. exact cell_markers. Qed.
+
+Theorem C01_conforms_sized : forall t v b,
+  wf_type t = true -> wf_val t v = true -> vector_hole t v = false ->
+  ser_value true t v = Ok b -> Enc t v b.
+Proof. exact conforms_value_sized. Qed.
+
+(* ---------------------------------------------------------------------------------------- *)
+(* Typed carriers whose elements are cells (Vec<Option<T>>, Vec<MaybeUnset<T>>)                *)
+(* ---------------------------------------------------------------------------------------- *)
+
+(* bound to a list / set: nulls (and not-set, read back as null) at every element position
+   round-trip through the Vec<Option<_>> decoder and are the specified encoding *)
+Theorem C01_roundtrip_sequence_cells : forall e cs b,
+  wf_type e = true -> Forall (cell_ok e) cs -> ser_sequence_cells e cs = Ok b ->
+  exists body, b = framed body /\ blen body <= i32_max /\
+               deser_listlike_cells e body = Ok (map (pad_cell e) cs).
+Proof. exact roundtrip_sequence_cells. Qed.
+
+Theorem C01_conforms_sequence_cells : forall e cs b,
+  wf_type e = true -> Forall (cell_ok e) cs -> ser_sequence_cells e cs = Ok b ->
+  enc_seq_cells_spec e cs = Some b.
+Proof. exact conforms_sequence_cells. Qed.
+
+(* without null / unset elements the typed carriers write exactly what the dynamic value writes,
+   so C01_roundtrip / C01_cell_conforms apply to them; with such an element bound to a vector:
+   C01_vector_cells_refuted *)
+Theorem C01_vector_cells_vals : forall e d vs,
+  ser_vector_cells e d (map CVal vs) = ser_cell (TVector e d) (CVal (CVector vs)).
+Proof. exact ser_vector_cells_vals. Qed.
+
+Theorem C01_sequence_cells_vals : forall e vs,
+  ser_sequence_cells e (map CVal vs) = ser_cell (TList e) (CVal (CList vs)).
+Proof. exact ser_sequence_cells_vals. Qed.
+
+(* ---------------------------------------------------------------------------------------- *)
+(* What [wf] excludes, explicitly                                                             *)
+(* ---------------------------------------------------------------------------------------- *)
+
+(* for native types, "value of the type" = what the Rust type of the constructor can hold, minus
+   three domain exclusions (non-ASCII for ascii, a time of day outside the day, a zero-byte varint) *)
+Theorem C01_wf_native_char : forall n v,
+  wf_native n v = rust_native n v && negb (domain_excl n v).
+Proof. exact wf_native_char. Qed.
+
+(* each exclusion is accepted by the writer and NOT read back by the driver's own reader: these
+   inputs are outside "every value of that type", the writer just does not validate them *)
+Theorem C01_outside_ascii : exists v b,
+  rust_native NAscii v = true /\ domain_excl NAscii v = true /\
+  ser_value true (TNative NAscii) v = Ok b /\ deser_value (TNative NAscii) b = Err DE_ExpectedAscii.
+Proof. exact outside_ascii. Qed.
+
+Theorem C01_outside_time : exists v b,
+  rust_native NTime v = true /\ domain_excl NTime v = true /\
+  ser_value true (TNative NTime) v = Ok b /\ deser_value (TNative NTime) b = Err DE_ValueOverflow.
+Proof. exact outside_time. Qed.
+
+Theorem C01_outside_varint : exists v b,
+  rust_native NVarint v = true /\ domain_excl NVarint v = true /\
+  ser_value true (TNative NVarint) v = Ok b /\ deser_value (TNative NVarint) b = Ok CEmpty.
+Proof. exact outside_varint. Qed.
 
 (* ---------------------------------------------------------------------------------------- *)
 (* Totality: [wf] is what serialisation accepts (up to the i32 size limits)                   *)
@@ -183,14 +248,84 @@ Example C01_ex_wf :
   pad (TList (TNative NInt)) (CSet [CInt 1]) = CList [CInt 1].
 Proof. repeat split; vm_compute; reflexivity. Qed.
 
+(* anchors for the definitions the driver relies on, including REJECTING instances *)
+Example C01_ex_known_class :
+  (* the two classes, at the top and nested *)
+  known_class (TVector (TNative NInt) 2) (CVector [CInt 7; CEmpty]) = true /\
+  known_class (TList (TVector (TNative NInt) 2)) (CList [CVector [CInt 1; CEmpty]]) = true /\
+  known_class (TTuple [TNative NInt]) (CTuple []) = true /\
+  known_class (TMap (TNative NInt) (TTuple [TNative NInt])) (CMap [(CInt 1, CTuple [])]) = true /\
+  known_class_of (TTuple [TNative NInt]) (CTuple []) = Some KB_empty_tuple /\
+  known_class_of (TVector (TNative NInt) 2) (CVector [CInt 7; CEmpty]) = Some KA_vector_null_element /\
+  (* ordinary values are in no class: Empty in a vint-prefixed vector, an empty string as last
+     element, a short (non-empty) tuple, a null tuple element, an empty list, a vector of tuples *)
+  known_class (TVector (TNative NVarint) 2) (CVector [CVarint [1]; CEmpty]) = false /\
+  known_class (TVector (TNative NText) 2) (CVector [CText [97]; CText []]) = false /\
+  known_class (TTuple [TNative NInt; TNative NText]) (CTuple [Some (CInt 1)]) = false /\
+  known_class (TTuple [TNative NInt; TNative NText]) (CTuple [None]) = false /\
+  known_class (TList (TNative NInt)) (CList []) = false /\
+  known_class (TVector (TNative NInt) 2) (CVector [CInt 7; CInt (-1)]) = false /\
+  known_class (TNative NInt) (CInt 7) = false /\
+  known_class_of (TNative NInt) CEmpty = None /\
+  cells_hole [CVal (CInt 7); CNull] = true /\ cells_hole [CVal (CInt 7); CUnset] = true /\
+  cells_hole [CVal (CInt 7); CVal CEmpty] = true /\ cells_hole [CVal (CInt 7); CVal (CInt 8)] = false.
+Proof. repeat split; vm_compute; reflexivity. Qed.
+
+Example C01_ex_predicates :
+  (* conformance predicate: accepts the encoding, rejects a wrong byte, a wrong length, a missing
+     frame, a null marker for a value *)
+  conforms_ok (TNative NInt) (CVal (CInt 7)) [0;0;0;4; 0;0;0;7] = true /\
+  conforms_ok (TNative NInt) (CVal (CInt 7)) [0;0;0;4; 0;0;0;8] = false /\
+  conforms_ok (TNative NInt) (CVal (CInt 7)) [0;0;0;3; 0;0;7] = false /\
+  conforms_ok (TNative NInt) (CVal (CInt 7)) [0;0;0;7] = false /\
+  conforms_ok (TNative NInt) (CVal (CInt 7)) [255;255;255;255] = false /\
+  conforms_ok (TNative NInt) CNull [255;255;255;255] = true /\
+  conforms_ok (TNative NInt) CUnset [255;255;255;254] = true /\
+  conforms_ok (TNative NInt) CUnset [255;255;255;255] = false /\
+  conforms_ok (TVector (TNative NInt) 2) (CVal (CVector [CInt 7; CEmpty])) [0;0;0;4; 0;0;0;7] = false /\
+  (* pad: what must come back *)
+  pad_cell (TTuple [TNative NInt; TNative NText]) (CVal (CTuple [Some (CInt 1)]))
+    = CVal (CTuple [Some (CInt 1); None]) /\
+  pad_cell (TNative NInt) CUnset = CNull /\
+  pad (TNative NText) CEmpty = CText [] /\ pad (TNative NInt) CEmpty = CEmpty /\
+  (* wf: rejecting instances *)
+  wf (TNative NInt) (CInt (2 ^ 31)) = false /\ wf (TNative NInt) (CBigInt 1) = false /\
+  wf (TNative NVarint) (CVarint []) = false /\ wf (TNative NInet) (CInet [1; 2; 3]) = false /\
+  wf (TTuple [TNative NInt]) (CTuple [Some (CInt 1); Some (CInt 2)]) = false /\
+  wf (TVector (TNative NInt) 2) (CVector [CInt 1]) = false /\
+  wf (TVector (TNative NInt) 0) (CVector []) = false /\
+  wf (TUdt [107] [117] [([97], TNative NInt)]) (CUdt [107] [117] [([98], Some (CInt 1))]) = false /\
+  wf (TNative NCounter) CEmpty = false /\ wf (TNative NInt) CEmpty = true /\
+  (* the element-cell specification *)
+  enc_seq_cells_spec (TNative NInt) [CVal (CInt 7); CNull; CUnset]
+    = Some [0;0;0;20; 0;0;0;3; 0;0;0;4; 0;0;0;7; 255;255;255;255; 255;255;255;254] /\
+  ser_sequence_cells (TNative NInt) [CVal (CInt 7); CNull; CUnset]
+    = Ok [0;0;0;20; 0;0;0;3; 0;0;0;4; 0;0;0;7; 255;255;255;255; 255;255;255;254] /\
+  deser_listlike_cells (TNative NInt) [0;0;0;3; 0;0;0;4; 0;0;0;7; 255;255;255;255; 255;255;255;254]
+    = Ok [CVal (CInt 7); CNull; CNull] /\
+  (* inet: 4 and 16 bytes are different values (an IPv4-mapped IPv6 address stays 16 bytes) *)
+  deser_value (TNative NInet) [0;0;0;0; 0;0;0;0; 0;0;255;255; 1;2;3;4]
+    = Ok (CInet [0;0;0;0; 0;0;0;0; 0;0;255;255; 1;2;3;4]).
+Proof. repeat split; vm_compute; reflexivity. Qed.
+
 Print Assumptions C01_roundtrip.
 Print Assumptions C01_roundtrip_value.
+Print Assumptions C01_roundtrip_value_sized.
 Print Assumptions C01_known_class_split.
 Print Assumptions C01_roundtrip_refuted_vector.
 Print Assumptions C01_vector_cells_refuted.
 Print Assumptions C01_roundtrip_refuted_tuple.
 Print Assumptions C01_conforms.
 Print Assumptions C01_conforms_refuted.
+Print Assumptions C01_conforms_sized.
+Print Assumptions C01_roundtrip_sequence_cells.
+Print Assumptions C01_conforms_sequence_cells.
+Print Assumptions C01_vector_cells_vals.
+Print Assumptions C01_sequence_cells_vals.
+Print Assumptions C01_wf_native_char.
+Print Assumptions C01_outside_ascii.
+Print Assumptions C01_outside_time.
+Print Assumptions C01_outside_varint.
 Print Assumptions C01_cell_conforms.
 Print Assumptions C01_cell_markers.
 Print Assumptions C01_ser_total.
